@@ -40,14 +40,14 @@ ParseIndividual(comps) ==
   ELSE Reject
 
 \* Formatting: the three-level form
-FormatGroup(x) == <<x \div 2048, (x \div 256) % 8, x % 256>>
-FormatIndividual(x) == <<x \div 4096, (x \div 256) % 16, x % 256>>
+FormatGroup(x) == <<x \div 2048, ((x \div 256) % 8), (x % 256)>>
+FormatIndividual(x) == <<x \div 4096, ((x \div 256) % 16), (x % 256)>>
 
 \* Component constructors: each component lands in its bit field, bits outside its width are ignored
-Group3(a, b, c) == (a % 32) * 2048 + (b % 8) * 256 + c % 256
-Group2(a, b) == (a % 32) * 2048 + b % 2048
-Individual3(a, b, c) == (a % 16) * 4096 + (b % 16) * 256 + c % 256
-Individual2(a, b) == (a % 256) * 256 + b % 256
+Group3(a, b, c) == ((a % 32)) * 2048 + ((b % 8)) * 256 + (c % 256)
+Group2(a, b) == ((a % 32)) * 2048 + (b % 2048)
+Individual3(a, b, c) == ((a % 16)) * 4096 + ((b % 16)) * 256 + (c % 256)
+Individual2(a, b) == ((a % 256)) * 256 + (b % 256)
 
 Ints(s) == [i \in 1..Len(s) |-> [t |-> "int", v |-> s[i]]]
 
